@@ -17,12 +17,16 @@ VERIF = os.path.dirname(HERE)
 def main():
     args = sys.argv[1:]
     only = None
+    prop = None
     keep = False
     d = "/tmp/verif-selftest"
     i = 0
     while i < len(args):
         if args[i] == "--only":
             only = args[i + 1]
+            i += 2
+        elif args[i] == "--prop":
+            prop = args[i + 1]
             i += 2
         elif args[i] == "--keep":
             keep = True
@@ -35,9 +39,11 @@ def main():
     muts = json.load(open(os.path.join(HERE, "mutants.json")))
     if only:
         muts = [m for m in muts if only in m["id"]]
+    if prop:
+        muts = [dict(m, props=[prop]) for m in muts if prop in m["props"]]
     subprocess.check_call([os.path.join(VERIF, "bin", "scratch"), d], stdout=subprocess.DEVNULL)
     env = dict(os.environ, VERIF_REPO=os.path.join(d, "repo"), VERIF_CACHE=os.path.join(d, "cache"),
-               VERIF_EVIDENCE_DIR=os.path.join(d, "evidence"))
+               VERIF_EVIDENCE_DIR=os.path.join(d, "evidence"), VERIF_TIER="quick", VERIF_NO_SELFTEST="1")
     results = []
     try:
         for m in muts:
